@@ -289,6 +289,139 @@ func (c *c08Run) runChain(chain []int, acct *account.Account, rng *vio.RNG, grid
 	}
 }
 
+// ---- nested calls (table "c08nest") --------------------------------------------------------------------------------
+
+type nestRec struct {
+	addr common.Address
+	key  string
+	val  string
+}
+
+type nestBlock struct {
+	row  obj
+	recs map[int]*nestRec
+}
+
+// nestSteps turns a script of the specification (["rec", i] | ["call", body, mode]) into probe steps.  Frames below a
+// failing call only register leaves (no storage writes): what a failed frame leaves in storage is not C08's subject.
+func nestSteps(steps []interface{}, depth int, live bool, h int, rng *vio.RNG, recs map[int]*nestRec) []ledgerkit.Step {
+	var out []ledgerkit.Step
+	for _, st := range steps {
+		a := st.([]interface{})
+		switch a[0].(string) {
+		case "rec":
+			id := int(a[1].(float64))
+			r := &nestRec{addr: ledgerkit.ProbeAddr, key: fmt.Sprintf("n/%d/%d", h, id), val: fmt.Sprintf("nrec-%d-%d-%x", h, id, rng.Bytes(1+rng.Intn(30)))}
+			if depth > 0 {
+				r.addr = ledgerkit.Probe2Addr
+			}
+			recs[id] = r
+			if live {
+				out = append(out, ledgerkit.Step{Op: "put", K: r.key, V: r.val})
+			}
+			out = append(out, ledgerkit.Step{Op: "rec", K: r.val})
+		case "call":
+			mode := a[2].(string)
+			sub := nestSteps(a[1].([]interface{}), depth+1, live && mode == "ok", h, rng, recs)
+			if mode != "ok" {
+				sub = append(sub, ledgerkit.Step{Op: "fail"})
+			}
+			out = append(out, ledgerkit.Step{Op: "call", Steps: sub, Catch: mode == "caught"})
+		}
+	}
+	return out
+}
+
+func (c *c08Run) checkNest(lg *ledger.Ledger, h int, nb *nestBlock, phase string) {
+	row := nb.row
+	order := ints(getl(row, "order"))
+	paths := getl(row, "paths")
+	root, err := lg.GetCrossStateRoot(uint32(h))
+	if err != nil {
+		c.violate("cross-root-unavailable", obj{"h": h, "err": err.Error(), "phase": phase})
+		return
+	}
+	env := &termeval.Env{Dat: func(j int) []byte { return []byte(nb.recs[j].val) }}
+	c.evals++
+	if exp := mustHash(env, row["root"]); [32]byte(root) != exp {
+		c.drift["cross-state root of a block with nested calls differs from the predicted leaf order"]++
+	}
+	for i, id := range order {
+		rec := nb.recs[id]
+		key := append(append([]byte{}, rec.addr[:]...), []byte(rec.key)...)
+		var path []byte
+		var err error
+		c.evals++
+		c.distinct[fmt.Sprintf("nest/%v/%d", row["steps"], id)] = true
+		if pn := vio.Safe(func() { path, err = lg.GetCrossStatesProof(uint32(h), key) }); pn != "" || err != nil {
+			c.violate("nested-call:cross-proof-unavailable", obj{"h": h, "record": id, "script": row["steps"], "leaf_order_predicted": order,
+				"panic": pn, "err": fmt.Sprint(err), "phase": phase})
+			continue
+		}
+		val, err := merkle.MerkleProve(path, root[:])
+		if err != nil || !bytes.Equal(val, []byte(rec.val)) {
+			c.violate("nested-call:cross-proof-does-not-verify", obj{"h": h, "record": id, "script": row["steps"], "err": fmt.Sprint(err),
+				"yield": string(val), "stored": rec.val, "phase": phase})
+			continue
+		}
+		if !bytes.Equal(path, pathBytes(env, []byte(rec.val), paths[i].([]interface{}))) {
+			c.drift["served proof of a block with nested calls differs from the predicted path but verifies"]++
+		}
+	}
+}
+
+// runNest commits one block per row of the nested-call table on one ledger (in slices of 150 blocks).
+func (c *c08Run) runNest(rows []obj, acct *account.Account, rng *vio.RNG) int {
+	commits := 0
+	for start := 0; start < len(rows); start += 150 {
+		end := start + 150
+		if end > len(rows) {
+			end = len(rows)
+		}
+		func() {
+			dir, err := os.MkdirTemp(".", "c08n-")
+			vio.Must(err)
+			defer os.RemoveAll(dir)
+			lg, kit := openLedger(dir, acct)
+			blocks := map[int]*nestBlock{}
+			nonce := uint32(rng.Intn(1<<20)) + 1<<21
+			for i, row := range rows[start:end] {
+				h := i + 1
+				nb := &nestBlock{row: row, recs: map[int]*nestRec{}}
+				steps := nestSteps(getl(row, "steps"), 0, true, h, rng, nb.recs)
+				nonce++
+				txs := []*types.Transaction{ledgerkit.ProbeTx(steps, nonce)}
+				if x := geti(row, "extra"); x >= 0 {
+					r := &nestRec{addr: ledgerkit.ProbeAddr, key: fmt.Sprintf("n/%d/%d", h, x), val: fmt.Sprintf("nrec-%d-%d-plain", h, x)}
+					nb.recs[x] = r
+					nonce++
+					txs = append(txs, ledgerkit.ProbeTx([]ledgerkit.Step{{Op: "put", K: r.key, V: r.val}, {Op: "rec", K: r.val}}, nonce))
+				}
+				blk := kit.Build(txs, nil)
+				if _, err := kit.Commit(blk); err != nil {
+					vio.Fatal("harness: commit of nested-call block %d failed: %v", h, err)
+				}
+				commits++
+				blocks[h] = nb
+				c.checkNest(lg, h, nb, "after-commit")
+			}
+			if p := vio.Safe(func() { lg.Close() }); p != "" {
+				c.violate("ledger-close-panic", obj{"panic": p})
+			}
+			lg = nil
+			if p := vio.Safe(func() { lg, _ = openLedger(dir, acct) }); p != "" || lg == nil {
+				c.violate("ledger-reopen-failed", obj{"panic": p})
+				return
+			}
+			for h := 1; h <= end-start; h++ {
+				c.checkNest(lg, h, blocks[h], "after-reopen")
+			}
+			vio.Safe(func() { lg.Close() })
+		}()
+	}
+	return commits
+}
+
 func c08(args []string) {
 	log.InitLog(log.FatalLog)
 	ledgerkit.RegisterProbe()
@@ -296,6 +429,7 @@ func c08(args []string) {
 	seed := vio.Seed()
 	c := &c08Run{cross: map[string]*crossRow{}, block: map[[2]int]*blockRowT{}, distinct: map[string]bool{}, drift: map[string]int{}, reportCap: 40}
 	var chains [][]int
+	var nest []obj
 	for _, r := range rows {
 		if ch, ok := r["chain"]; ok {
 			chains = append(chains, ints(ch.([]interface{})))
@@ -303,6 +437,8 @@ func c08(args []string) {
 		}
 		job, row := geto(r, "job"), geto(r, "row")
 		switch gets(job, "k") {
+		case "nest":
+			nest = append(nest, row)
 		case "cross":
 			c.cross[fmt.Sprintf("%s/%d", gets(r, "lab"), geti(row, "k"))] = &crossRow{root: row["root"], paths: getl(row, "paths")}
 		case "block":
@@ -319,5 +455,8 @@ func c08(args []string) {
 		c.runChain(ch, acct, rng, len(ch) <= 8)
 		commits += len(ch)
 	}
-	vio.Emit(obj{"summary": true, "chains": len(chains), "commits": commits, "evaluations": c.evals, "distinct": len(c.distinct), "drift": c.drift})
+	c.chainNo = -1
+	nestCommits := c.runNest(nest, acct, rng)
+	commits += nestCommits
+	vio.Emit(obj{"summary": true, "chains": len(chains), "commits": commits, "nested_call_blocks": nestCommits, "evaluations": c.evals, "distinct": len(c.distinct), "drift": c.drift})
 }
